@@ -368,9 +368,7 @@ def run(chk):
 
     loader.install_shim()
     bl = loader.load('conversion.beamline')
-    chk.functions = loader.describe([bl.scattering_angles_with_gravity, bl._scattering_angles_with_gravity_generic,
-                                     bl._scattering_angles_with_gravity_orthogonal_coords, bl._drop_due_to_gravity,
-                                     bl.beam_aligned_unit_vectors, bl.scattering_angle_in_yz_plane])
+    chk.functions = loader.describe_exprs(['bl.scattering_angles_with_gravity', 'bl._scattering_angles_with_gravity_generic', 'bl._scattering_angles_with_gravity_orthogonal_coords', 'bl._drop_due_to_gravity', 'bl.beam_aligned_unit_vectors', 'bl.scattering_angle_in_yz_plane'], {**globals(), **locals()})
     dts = ['float64', 'float32'] if chk.tier == 'thorough' else ['float64']
     run_jobs(chk, job_generic, dts + (['float32'] if chk.tier != 'thorough' else []))
     run_jobs(chk, job_basis, [0])
